@@ -1,0 +1,13 @@
+//go:build verif
+
+package parser
+
+// Contracts for the govc verifier (/verif). Comment-only file: it contains no
+// executable code and is compiled only with the build tag `verif`.
+
+// ------------------------------------------------------ cedar_unmarshal.go
+//
+// Representation invariant of the recursive-descent parser: the cursor is
+// always on a token (the token list ends with EOF and is never empty).
+//@ typeinv parser 0 <= self.pos && self.pos < len(self.tokens)
+//@ sweep C10 cedar_unmarshal.go
